@@ -293,6 +293,54 @@ impl Check for C08 {
 
 // ------------------------------------------------------------------ C14
 
+/// (return type, expression) pairs: the same functions are appended to every rendering of a C14 case,
+/// with the expression as the trailing expression of the body in some renderings and as `ret <expr>` in
+/// the others ("a trailing expression means ret of that expression", for every kind of expression)
+const TRAILING_KINDS: &[(&str, &str)] = &[
+    ("bool", "a <=> b"),
+    ("int", "a + b"),
+    ("int", "if a > b do\n    1\nelse do\n    2\nend"),
+    ("int", "case Maybe.Just a do\n    Just q -> q end\n    None -> b end\nend"),
+    ("int", "zt_id(a)"),
+    ("int", "a -> zt_id()"),
+    ("int", "zt_id' a"),
+    ("(int, int)", "(a, b)"),
+    ("[int]", "[a, b]"),
+    ("int", "-a"),
+    ("bool", "a > b and b > 0"),
+    ("bool", "not (a > b)"),
+    ("fn int -> int", "fn x: int -> int do\n    x + a\nend"),
+    ("ZtB", "ZtB { f: a }"),
+    ("Maybe(int)", "Maybe.Just a"),
+    ("str", "\"s\" + \"t\""),
+    ("float", "a / b"),
+    ("int", "(a, b)[0]"),
+    ("bool", "a == b"),
+    ("int", "a * b - a"),
+];
+
+fn trailing_snippet(ret_form: bool) -> String {
+    let mut t = String::from("\nZtB :: blob {\n    f: int,\n}\n\nzt_id :: fn a: int -> int do\n    a\nend\n\n");
+    for (i, (ty, e)) in TRAILING_KINDS.iter().enumerate() {
+        let mut lines: Vec<String> = e.lines().map(|l| l.to_string()).collect();
+        if ret_form {
+            lines[0] = format!("ret {}", lines[0]);
+        }
+        let body = lines.iter().map(|l| format!("    {}", l)).collect::<Vec<_>>().join("\n");
+        t.push_str(&format!("zt_{} :: fn a: int, b: int -> {} do\n{}\nend\n\n", i, ty, body));
+    }
+    t.push_str("zt_use :: fn do\n");
+    for (i, (ty, _)) in TRAILING_KINDS.iter().enumerate() {
+        if *ty == "fn int -> int" || *ty == "ZtB" {
+            t.push_str(&format!("    zk_{} :: zt_{}(1, 1)\n", i, i));
+        } else {
+            t.push_str(&format!("    print(zt_{}(1, 1))\n", i));
+        }
+    }
+    t.push_str("end\n");
+    t
+}
+
 pub struct C14;
 
 impl Check for C14 {
@@ -327,6 +375,12 @@ impl Check for C14 {
         let s1 = rng.next();
         let s2 = rng.next();
         vs.push(Variant { label: "sugar+layout".into(), text: print_with(&p, &name, &all_annot, Some(s1), Some(s2), order) });
+        // the trailing-expression / `ret` pairs, alternating over the renderings
+        for (k, v) in vs.iter_mut().enumerate() {
+            v.text.push_str(&trailing_snippet(k % 2 == 1));
+            v.label.push_str(if k % 2 == 1 { " + snippet functions ending in `ret e`" } else { " + snippet functions ending in a trailing `e`" });
+        }
+        st.add("trailing_vs_ret_functions_compared", TRAILING_KINDS.len() as u64);
         // census of the forms used
         for v in &vs[1..] {
             st.add("form:prime_calls", v.text.matches("' ").count() as u64 + v.text.matches("'\n").count() as u64 + v.text.matches("')").count() as u64);
